@@ -61,7 +61,18 @@ func vConnCase(r *vrng) (string, string, string, string) {
 		chunks = append(chunks, c)
 		stream = append(stream, c...)
 	}
+	// one case in three ends with the end of the stream, half of those deliver it together with the last bytes
 	sc := &sconn{chunks: chunks}
+	switch r.intn(6) {
+	case 0:
+		sc.eof = true
+		emit("L0")
+	case 1:
+		sc.eof, sc.eofWithLast = true, true
+		emit("L1")
+	default:
+		emit("L0")
+	}
 	capv := r.pick(0, 2048)
 	cx := WrapConnection(sc, make([]byte, 0, capv), zap.NewNop())
 	nops := 1 + r.intn(14)
